@@ -116,20 +116,25 @@ IncohFailed(e) ==
       IN IF ~op.ok \/ op.outlen = 0
          THEN Ok(e.err \/ e.outlen = 0, "no-valid-time-but-samples-returned")
          ELSE IF e.err THEN {"refused"}
-         ELSE IF e.outlen # op.outlen THEN {"length"}
+         \* the property says ONLY samples with in-range sources are returned, not that all of them
+         \* are: more samples than the valid set is a violation, fewer are judged by the declarative
+         \* clause alone (the code's own window is compared only when the lengths agree)
+         ELSE IF e.outlen > op.outlen THEN {"length"}
          ELSE
           Ok(e.decoded, "channel-or-trailing-moved")
-          \cup Ok(\A i \in 1..n : \A k \in 1..op.outlen : e.src[i][k] = op.src[i][k], "source")
+          \cup (IF e.outlen = op.outlen
+                THEN Ok(\A i \in 1..n : \A k \in 1..op.outlen : e.src[i][k] = op.src[i][k], "source")
+                ELSE {})
           \* declarative, through the stamped start: sample k has time T = adv + k - 1
           \* and shows the input at T + d_i; without a start time only the
           \* relative alignment of the channels is observable
           \cup (IF e.hasT /\ e.outT
                 THEN LET ab == RRound(e.adv)
                          a == IF FitsInt(ab) THEN ToInt(ab) ELSE -1000000000
-                     IN Ok(\A i \in 1..n : \A k \in 1..op.outlen :
+                     IN Ok(\A i \in 1..n : \A k \in 1..e.outlen :
                               /\ e.src[i][k] = a + k - 1 + d[i]
                               /\ e.src[i][k] >= 0 /\ e.src[i][k] <= e.len - 1, "realign-decl")
-                ELSE Ok(\A i \in 1..n : \A k \in 1..op.outlen :
+                ELSE Ok(\A i \in 1..n : \A k \in 1..e.outlen :
                            e.src[i][k] - d[i] = e.src[1][1] - d[1] + k - 1, "realign-decl"))
           \cup StartClauses(e, op.adv, TRUE)
           \cup MetaClauses(e)
